@@ -248,9 +248,12 @@ class Lib:
             st.assume(*axioms)
         neg = getattr(mask, "negation_of", None)
         sc = getattr(neg, "scatter", None) if neg is not None else None
+        direct = getattr(mask, "scatter", None)          # the complementary mask built directly: all True, False scattered at the positions
+        if sc is None and direct is not None and getattr(direct[4], "all_true", False) and direct[3] is False:
+            sc = (direct[0], direct[1], direct[2], True, None)
         if sc is not None and mask.ndim == 1:
             ia, _mem, _wit, v, base = sc
-            if getattr(base, "all_zero", False) and base.kind == "b" and v is True:
+            if (base is None or (getattr(base, "all_zero", False) and base.kind == "b")) and v is True:
                 # counting lemma (trusted, the complement form of the scatter-of-ones lemma): a mask that is False exactly at k pairwise
                 # distinct in-range positions has n - k True entries
                 _used(E, "count of the complement of k distinct positions = n - k (trusted counting lemma)")
@@ -280,6 +283,15 @@ class Lib:
             if d.ndim == 2 and len(parts) == 2 and isinstance(parts[0], ast.Slice) and (parts[0].lower is not None or parts[0].upper is not None) \
                     and isinstance(parts[1], ast.Slice) and parts[1].lower is None and parts[1].upper is None and parts[1].step is None:
                 return self.slice_store(E, d, parts[0], v, va, st, node)          # A[lo:hi, :] = W
+            if d.ndim == 2 and len(parts) == 2 and isinstance(parts[0], ast.Slice) and (parts[0].lower is not None or parts[0].upper is not None) \
+                    and parts[0].step is None and not isinstance(parts[1], ast.Slice):
+                # A[lo:hi, cols] = W  ==  (A[lo:hi])[:, cols] = W on the view of the rows lo..hi-1
+                lo = to_int(E.eval(parts[0].lower, st)) if parts[0].lower is not None else z3.IntVal(0)
+                hi = to_int(E.eval(parts[0].upper, st)) if parts[0].upper is not None else to_int(d.shape[0])
+                view = ArrData((z3.simplify(hi - lo),) + tuple(d.shape[1:]), lambda i, *r: d.sel(i + lo, *r), d.kind)
+                inner = ast.Tuple(elts=[ast.Slice(lower=None, upper=None, step=None), parts[1]], ctx=ast.Load())
+                nv = self.array_store(E, view, inner, v, st, node)
+                return ArrData(d.shape, lambda i, *r: _ite_val(z3.And(lo <= i, i < hi), nv.sel(i - lo, *r), d.sel(i, *r)), nv.kind)
             ev = [None if (isinstance(x, ast.Slice) and x.lower is None and x.upper is None) else E.eval(x, st) for x in parts]
             if len(ev) == d.ndim and all(x is not None and is_scalar(x) for x in ev):
                 ii = [to_int(x) for x in ev]
@@ -1081,7 +1093,10 @@ def register_builtins(L):
         if base == "ones":
             k = _dtype_kind(dt, "f")
             v = {"f": z3.RealVal(1), "i": z3.IntVal(1), "b": z3.BoolVal(True)}.get(k, z3.RealVal(1))
-            return st.alloc(ArrData(shape, lambda *i: v, k))
+            r = ArrData(shape, lambda *i: v, k)
+            if k == "b":
+                r.all_true = True
+            return st.alloc(r)
         if base == "empty":
             k = _dtype_kind(dt, "f")
             return st.alloc(ArrData(shape, fresh_sel("empty", k, len(shape)), k))
@@ -1098,6 +1113,8 @@ def register_builtins(L):
             r = ArrData(shape, lambda *i: v, k)
             if k == "b" and v is False:
                 r.all_zero = True
+            if k == "b" and v is True:
+                r.all_true = True
             return st.alloc(r)
         raise Unsupported(name)
 
@@ -1215,7 +1232,8 @@ def register_builtins(L):
         if a is None or a.ndim != 1:
             return Opaque("where")
         src = ArrData(a.shape, lambda i: i, "i")
-        res = L.filter(E, src, ArrData(a.shape, lambda i: truth(a.sel(i)) if not _isbool(a.sel(i)) else z3bool(a.sel(i)), "b"), st)
+        mask_ = a if a.kind == "b" else ArrData(a.shape, lambda i: truth(a.sel(i)) if not _isbool(a.sel(i)) else z3bool(a.sel(i)), "b")
+        res = L.filter(E, src, mask_, st)
         if unparse(node.func).endswith("flatnonzero"):
             return res
         return (res,)
